@@ -251,6 +251,13 @@ def decode_with_tracklib(mdl, log, mode="scalar", verbose=0, ctor=False, trace=N
         h.setLog(log)
         h.setStationarity(mdl.stationary)
     obsname = "sym" if mode == "scalar" else ["x", "y"]
+    if mode == "scalar" and (T + int(sum(mdl.obs))) % 5 == 2:
+        # two-level workflow: the observations of this model are the labels an EARLIER decoding left on the track, under
+        # the very names estimate() writes its results to
+        tr.createAnalyticalFeature("hmm_inference", [float(v) for v in mdl.obs])
+        tr.createAnalyticalFeature("hmm_cost", [3.5] * T)
+        obsname = "hmm_inference"
+        M.CTX.count("observations_are_the_results_of_an_earlier_decoding")
     _LAST_HMM[:] = [h, tr, obsname, mode]
     if trace is not None:
         with M.capture_locals([HMM.estimate.__code__], ["TAB_VAL", "TAB_MRK"], trace):
@@ -890,6 +897,11 @@ def run_rnd(case, ctx):
         # the same HMM object decodes the same track again after ANOTHER model (another HMM object) was decoded in
         # between
         h, tr0, obsname, mode0 = hmm0
+        if obsname == "hmm_inference":
+            # the observations were the labels of an earlier decoding, which the first estimate() has since replaced by
+            # its own results: the caller puts the labels back before decoding again
+            for k_ in range(T):
+                tr0["hmm_inference", k_] = float(mdl.obs[k_])
         r = M.call(h.estimate, tr0, obsname, mode=MODE_NAMES[mode0], verbose=0)
         out_ = r if M.is_raised(r) else M.call(lambda: (list(tr0["hmm_inference"]), list(tr0["hmm_cost"])))
         w_ = judge(mdl, out_, p, q, best, ctx, "the first HMM object, decoding again after another model was decoded in between")
